@@ -975,6 +975,9 @@ class Unit:
         # (additive) fn key -> {"unit", "export_key", "file", "name", "only", "line"}: contracts imported from the unit that
         # proves them (`//@ import`); they own no obligation here, ./check ties their status to the exporting unit
         self.imports = {}
+        # (additive) structural obligation name -> description of a cross-unit link that is still made by hand and guarded by
+        # `//@ samecontract` (hash of both texts) or `//@ refine` (Verus checks stand-in contract against the proved one)
+        self.handlinks = {}
 
     def emit(self, text: str, origin):
         for ln in text.split("\n"):
@@ -999,9 +1002,18 @@ def build_unit(unit_name: str, reach: bool = False, mutate=None, stub=None, nohi
     n = len(raw)
 
     def include(rel):
+        # (additive) `//@ include <file> :: notags=1`: obligation tags of the included text are stripped - for a trusted
+        # prelude file shared with the unit that OWNS the obligations written on its stand-ins (prelude/sniff_hyper_rt.rs:
+        # the `requires` of `ReadBufCursor::advance` are obligations of units sniff / bridge; unit upgradable includes the
+        # file only for the vocabulary of an imported contract and never calls `advance`)
+        segs = [x.strip() for x in split_top(rel)]
+        rel, iopts = segs[0], parse_opts(segs[1:])
         with open(os.path.join(VX, rel)) as f:
             u.emit("// ---- include %s ----" % rel, ("spec", rel))
-            u.emit(f.read().rstrip("\n"), ("spec", rel))
+            text = f.read().rstrip("\n")
+            if iopts.get("notags") == "1":
+                text = strip_obligation_tags(text)
+            u.emit(text, ("spec", rel))
 
     while i < n:
         line = raw[i]
@@ -1045,6 +1057,14 @@ def build_unit(unit_name: str, reach: bool = False, mutate=None, stub=None, nohi
         elif kind == "fn":
             fpath, impl_pat, name, spec, i = parse_fn_directive(raw, i, d)
             emit_fn(u, fpath, impl_pat, name, spec, reach, mutate)
+        elif kind == "samecontract":
+            # (additive) drift guard for a cross-unit link that is still made BY HAND (see emit_samecontract)
+            emit_samecontract(u, d)
+            i += 1
+        elif kind == "refine":
+            # (additive) refinement check of a hand-written stand-in against the contract proved in THIS unit (see emit_refine)
+            emit_refine(u, d, reach)
+            i += 1
         elif kind == "import":
             # (additive) `//@ import <unit> :: <impl-header regex | -> :: <fn name> [:: opt=value ..]`: the contract that
             # unit <unit> PROVES on the real body of the fn, as an external_body stub in this unit (see emit_import)
@@ -1653,7 +1673,15 @@ def emit_stub(u, text, header, spec, what, key, rw, rewritten=False, imp=None):
         out += "\n" + spec.spec.rstrip() + "\n"
     out += "{ unimplemented!() }"
     org = ("stub", what)
-    if imp is not None:
+    if imp is not None and imp.get("refine"):
+        # (additive) `//@ refine`: NOT a stub - a verified wrapper with the STAND-IN's contract around a call of the fn this unit
+        # proves; Verus checks stand-in requires ==> proved requires (at the call) and proved ensures ==> stand-in ensures
+        rf = imp["refine"]
+        out = sig.rstrip() + "\n" + spec.spec.rstrip() + "\n{\n" + rf["entry"] + "    " + refine_call(sig, rf["callee"], header is not None) + " //# " + rf["tag"] + "\n}"
+        org = ("spec", "refine %s" % rf["name"])
+        u.emit("// ---- REFINEMENT CHECK %s: the contract of the hand-written stand-in `%s` (%s, used by unit(s) %s) around a call of the fn proved above ----"
+               % (rf["name"], rf["standin"], rf["file"], rf["users"]), ("spec", "marker"))
+    elif imp is not None:
         # (additive) origin `import`: runner.scan_assumptions lists the stub as `imported-contract`, not as an assumption
         org = ("import", "%s imported from unit %s" % (key, imp["unit"]))
         u.emit("// ---- IMPORTED from unit %s (contract text of its `//@ fn .. :: %s`, proved there on the real body; obligation tags stripped%s): %s ----"
@@ -1830,6 +1858,246 @@ def emit_import(u: Unit, d: str):
     u.items.append({"kind": "import", "name": name, "impl": hdr_of, "file": fpath, "from": exp_unit,
                     "rewrites": ["IMPORTED from unit %s (units/%s.vxu:%d)%s" % (exp_unit, exp_unit, ln, ", only=" + ",".join(only) if only else "")],
                     "sha": imp["spec_sha"], "contracted": True, "emitted_name": spec.opts.get("as", name)})
+
+
+# ----------------------------------------------------------------------------
+# cross-unit links that are still made BY HAND (additive): drift guards
+# ----------------------------------------------------------------------------
+def find_export_block(exp_unit: str, imp_pat: str, name: str, what: str):
+    """the `//@ fn .. :: <name>` block of units/<exp_unit>.vxu whose impl header (as found in the source) matches imp_pat"""
+    hits = []
+    for (fpath, epat, ename, espec, ln) in export_directives(exp_unit):
+        if ename != name:
+            continue
+        if epat == "-" or imp_pat == "-":
+            if epat == imp_pat:
+                hits.append((fpath, epat, espec, ln))
+            continue
+        src = source(fpath)
+        lo, hi = mod_range(src, espec.opts.get("mod", ""))
+        try:
+            hdr = src.find_impl_fn(epat, name, lo, hi).impl_header.header
+        except ScanError:
+            continue
+        if re.search(imp_pat, hdr):
+            hits.append((fpath, epat, espec, ln))
+    if len(hits) != 1:
+        raise ScanError("lost anchor: %s (%d matching `//@ fn` blocks in units/%s.vxu)" % (what, len(hits), exp_unit))
+    return hits[0]
+
+
+def contract_code(text: str) -> str:
+    """contract text reduced to its code: comments and obligation tags dropped, white space collapsed (so that the hash
+    changes with the CONTRACT, not with a re-worded comment or a re-assigned property tag)"""
+    out = []
+    for ln in text.split("\n"):
+        # cut at the first `//` outside a string literal (rustscan.mask blanks comments entirely, so it cannot be used to
+        # find where one starts)
+        in_str, k, cut = False, 0, len(ln)
+        while k < len(ln):
+            c = ln[k]
+            if in_str:
+                if c == "\\":
+                    k += 1
+                elif c == '"':
+                    in_str = False
+            elif c == '"':
+                in_str = True
+            elif ln.startswith("//", k):
+                cut = k
+                break
+            k += 1
+        out.append(ln[:cut])
+    return re.sub(r"\s+", " ", " ".join(out)).strip()
+
+
+def contract_sha(text: str) -> str:
+    return hashlib.sha256(contract_code(text).encode()).hexdigest()[:12]
+
+
+def standin_text(rel: str, fn: str, what: str):
+    """text of the hand-written stand-in `fn <name>` in a prelude file: (whole fn text, contract text, 1-based line).
+    `<name>##k`: the k-th `fn <name>` of the file."""
+    fn, _, k = fn.partition("##")
+    k = int(k) if k else 1
+    path = os.path.join(VX, rel)
+    if not os.path.exists(path):
+        raise ScanError("lost anchor: %s: %s does not exist" % (what, rel))
+    with open(path) as f:
+        t = f.read()
+    m = mask(t)
+    hits = [mm for mm in re.finditer(r"\bfn\s+%s\b" % re.escape(fn), m)]
+    if len(hits) < k:
+        raise ScanError("lost anchor: %s: no stand-in `fn %s` (occurrence %d) in %s" % (what, fn, k, rel))
+    st = hits[k - 1].start()
+    um = re.compile(r"\{\s*unimplemented!\(\)\s*\}").search(m, st)
+    nxt = re.compile(r"\bfn\s+[A-Za-z_]").search(m, hits[k - 1].end())
+    if um and (not nxt or um.start() < nxt.start()):
+        body_open, end = um.start(), um.end()
+    else:
+        body_open = find_body_open(m, st)
+        if body_open < 0:  # trait method declaration `fn f(..) -> T requires .. ensures ..;`
+            end = m.index(";", st) + 1
+            body_open = end - 1
+        else:
+            end = match_close(m, body_open) + 1
+    head = m[st:body_open]
+    km = re.search(r"\b(requires|ensures)\b", head)
+    contract = t[st + km.start():body_open] if km else ""
+    return t[st:end], contract, t.count("\n", 0, st) + 1
+
+
+def parse_link_head(seg0: str, kind: str, d: str):
+    mo = re.match(r"([A-Za-z0-9_.\-]+)\s*\[([A-Z0-9, ]+)\]$", seg0)
+    if not mo:
+        raise ScanError("bad %s directive: %s" % (kind, d))
+    return mo.group(1), [x.strip() for x in mo.group(2).split(",") if x.strip()]
+
+
+def emit_samecontract(u: Unit, d: str):
+    """`//@ samecontract <name> [Cxx,..] :: <exporting unit> :: <impl-header regex | -> :: <fn> :: <prelude file> :: <stand-in fn>
+                          :: export=<sha> :: standin=<sha>`
+
+    Drift guard for a cross-unit link that is still made BY HAND: unit <exporting unit> proves a contract on the real body
+    of <fn>; THIS unit is verified against a hand-written `external_body` stand-in of it in <prelude file> (different
+    vocabulary, so `//@ import` does not apply - notes/imports.md says why for each).  The directive records the hash of BOTH
+    texts as they were when a human last compared them: `export` = code of the exporting block's `//@ spec` (comments, tags
+    and white space do not count), `standin` = code of the stand-in fn (signature + contract).  A structural obligation
+    (like writers / implset / fields): when either hash differs the obligation is violated = UNDECIDED, it falls back to its
+    replays (replays/index.links.json) - i.e. any edit of the proved contract (or of the copy) forces a human look at the
+    pair, after which the new hashes are written into the directive.  Nothing is assumed by the directive itself."""
+    segs = [x.strip() for x in split_top(d[len("samecontract"):].strip())]
+    if len(segs) < 6:
+        raise ScanError("bad samecontract directive: " + d)
+    name, props = parse_link_head(segs[0], "samecontract", d)
+    exp_unit, imp_pat, fn, rel, sfn = segs[1:6]
+    opts = parse_opts(segs[6:])
+    what = "samecontract %s: %s :: %s :: %s" % (name, exp_unit, imp_pat, fn)
+    bad = []
+    esha = ssha = ln = None
+    try:
+        fpath, epat, espec, ln = find_export_block(exp_unit, imp_pat, fn, what)
+        esha = contract_sha(espec.spec)
+    except ScanError as e:
+        bad.append("the exporting `//@ fn` block is gone: %s" % e)
+    try:
+        whole, contract, sln = standin_text(rel, sfn, what)
+        ssha = contract_sha(whole)
+    except ScanError as e:
+        bad.append("the stand-in is gone: %s" % e)
+    if esha is not None and opts.get("export") != esha:
+        bad.append("the contract unit %s proves for %s (units/%s.vxu:%s) is now %s, the directive records %s: compare it with the hand-written stand-in `%s` in %s, then record export=%s"
+                   % (exp_unit, fn, exp_unit, ln, esha, opts.get("export", "nothing"), sfn, rel, esha))
+    if ssha is not None and opts.get("standin") != ssha:
+        bad.append("the hand-written stand-in `%s` in %s is now %s, the directive records %s: compare it with the contract proved in units/%s.vxu:%s, then record standin=%s"
+                   % (sfn, rel, ssha, opts.get("standin", "nothing"), exp_unit, ln, ssha))
+    u.structural[name] = {"props": props, "kind": "samecontract", "violations": bad,
+                          "text": "samecontract: stand-in `%s` (%s) was compared by hand with the contract of %s proved in unit %s; both texts unchanged since (export=%s standin=%s)"
+                                  % (sfn, rel, fn, exp_unit, opts.get("export"), opts.get("standin"))}
+    u.handlinks[name] = {"guard": "samecontract", "function": fn, "proved_in": exp_unit, "exporting_block": "vx/units/%s.vxu:%s" % (exp_unit, ln),
+                         "standin": "%s in vx/%s" % (sfn, rel), "export_sha": esha, "standin_sha": ssha, "status": "unchanged" if not bad else "CHANGED: " + "; ".join(bad)}
+    u.emit("// structural obligation %s [%s]: %s" % (name, ",".join(props), "ok" if not bad else "VIOLATED: " + "; ".join(bad)), ("spec", "structural"))
+
+
+REFINE_CUT = "NOT REFINED"
+
+
+def refine_call(sig: str, callee: str, in_impl: bool) -> str:
+    """`self.f(a, b)` / `Self::f(a, b)` / `f(a, b)` from the parameter list of the (rewritten) signature"""
+    m = mask(sig)
+    mm = re.search(r"\bfn\s+[A-Za-z_][A-Za-z0-9_]*", m)
+    j = mm.end()
+    if j < len(m) and m[j:].lstrip().startswith("<"):
+        j = m.index("<", j)
+        depth = 0
+        while True:
+            if m[j] == "<":
+                depth += 1
+            elif m[j] == ">" and m[j - 1] != "-":
+                depth -= 1
+                if depth == 0:
+                    j += 1
+                    break
+            j += 1
+    po = m.index("(", j)
+    pc = match_close(m, po)
+    params = [x.strip() for x in split_params(sig[po + 1:pc])]
+    recv, args = None, []
+    for p_ in params:
+        if re.match(r"(&\s*(?:'[a-z_]+\s+)?)?(mut\s+)?self\b", p_):
+            recv = p_
+            continue
+        nm = re.match(r"(?:mut\s+)?([A-Za-z_][A-Za-z0-9_]*)\s*:", p_)
+        if not nm:
+            raise ScanError("refine: cannot name parameter `%s`" % p_)
+        args.append(nm.group(1))
+    if recv is not None:
+        return "self.%s(%s)" % (callee, ", ".join(args))
+    return ("Self::%s(%s)" if in_impl else "%s(%s)") % (callee, ", ".join(args))
+
+
+def emit_refine(u: Unit, d: str, reach: bool):
+    """`//@ refine <name> [Cxx,..] :: <impl-header regex | -> :: <fn> :: <prelude file> :: <stand-in fn> [:: users=<unit,..>] [:: as=<emitted name of fn>]`
+
+    Refinement check for a cross-unit link that is still made BY HAND, written in the EXPORTING unit (the one that proves the
+    contract of <fn> on the real body; the directive comes after that `//@ fn` block).  Another unit is verified against a
+    hand-written `external_body` stand-in of <fn> in <prelude file>, in its own vocabulary.  This directive emits, next to the
+    proved fn, a WRAPPER with the signature of <fn> (re-extracted), the requires / ensures text of the stand-in read from the
+    prelude file on every run, and the body `<fn>(args)`.  Verus then checks, mechanically and in the unit that has the real
+    types,  stand-in requires ==> proved requires  (precondition of the call)  and  proved ensures ==> stand-in ensures
+    (postcondition of the wrapper): the hand copy is not weaker in what it demands and not stronger in what it promises.
+    The ghost attributes the stand-in speaks about must be DEFINED in this unit over the real type (abstraction functions,
+    plain `open spec fn` text of the unit - the explicit dictionary between the two vocabularies).  Clauses of the stand-in
+    that follow a comment containing `NOT REFINED` are left out (ghost argument records and model conventions that no unit
+    proves; they are listed as such in the evidence).  Every line of the wrapper carries the obligation tag <name> [Cxx,..]."""
+    segs = [x.strip() for x in split_top(d[len("refine"):].strip())]
+    if len(segs) < 5:
+        raise ScanError("bad refine directive: " + d)
+    name, props = parse_link_head(segs[0], "refine", d)
+    imp_pat, fn, rel, sfn = segs[1:5]
+    opts = parse_opts(segs[5:])
+    what = "refine %s: %s :: %s" % (name, imp_pat, fn)
+    fpath, epat, espec, ln = find_export_block(u.name, imp_pat, fn, what)
+    whole, contract, sln = standin_text(rel, sfn, what)
+    if not contract.strip():
+        raise ScanError("lost anchor: %s: the stand-in `%s` in %s has no contract" % (what, sfn, rel))
+    tag = "%s [%s]" % (name, ",".join(props))
+    kept, dropped, cut = [], [], False
+    for ln_ in strip_obligation_tags(contract).rstrip().split("\n"):
+        if REFINE_CUT in ln_:
+            cut = True
+        (dropped if cut else kept).append(ln_)
+    text = []
+    for ln_ in kept:
+        code = mask(ln_).split("//")[0].strip()
+        text.append(ln_ + (" //# " + tag if code and code not in ("requires", "ensures") else ""))
+    spec = FnSpec()
+    spec.opts = {k: v for k, v in espec.opts.items() if k != "loop_iter"}
+    callee = spec.opts.get("as", fn)
+    spec.opts["as"] = "vx_refine_" + re.sub(r"[^A-Za-z0-9_]", "_", name)
+    spec.spec = "\n".join(text)
+    if any(k == spec.opts["as"] or k.endswith("::" + spec.opts["as"]) for k in u.stub):
+        # the wrapper did not pass the front end (isolation loop of runner.verify_unit put its key into `stub`): e.g. a
+        # parameter of the real fn was renamed, so the stand-in's text no longer names it.  Keep that local: no wrapper is
+        # emitted, the link obligation is "not generated" = undecided for ITS properties only (replays), the rest of the unit
+        # is verified as usual.
+        u.emit("// ---- REFINEMENT CHECK %s NOT GENERATED: the stand-in's contract (vx/%s `%s`) does not compile around a call of %s in this unit ----"
+               % (name, rel, sfn, fn), ("spec", "marker"))
+        u.handlinks[name] = {"guard": "refine", "function": fn, "proved_in": u.name, "exporting_block": "vx/units/%s.vxu:%s" % (u.name, ln),
+                             "standin": "%s in vx/%s:%d" % (sfn, rel, sln), "used_by": opts.get("users", "?"),
+                             "status": "NOT GENERATED: the wrapper does not pass the front end"}
+        return
+    entry = ("    proof { assert(false); } // REACH %s\n" % spec.opts["as"]) if reach else ""
+    imp = {"unit": u.name, "name": fn, "only": [], "line": ln,
+           "refine": {"name": name, "tag": tag, "callee": callee, "standin": sfn, "file": "vx/" + rel, "users": opts.get("users", "?"), "entry": entry}}
+    key = emit_fn(u, fpath, epat, fn, spec, False, None, imp=imp)
+    unref = [contract_code(x) for x in dropped if contract_code(x)]
+    u.handlinks[name] = {"guard": "refine", "function": fn, "proved_in": u.name, "exporting_block": "vx/units/%s.vxu:%s" % (u.name, ln),
+                         "standin": "%s in vx/%s:%d" % (sfn, rel, sln), "used_by": opts.get("users", "?"), "wrapper": key,
+                         "unrefined_clauses": unref}
+    u.items.append({"kind": "refine", "name": fn, "impl": None, "file": fpath, "from": rel,
+                    "rewrites": ["REFINEMENT WRAPPER for stand-in %s (vx/%s)" % (sfn, rel)], "sha": contract_sha(contract),
+                    "contracted": True, "emitted_name": spec.opts["as"]})
 
 
 def indent(t: str, pre: str) -> str:
